@@ -14,6 +14,7 @@ func init() {
 			c01Decoder(c, "C05.decode-table", c.method("C05.decode-table", wsutil, "Reader", "readHeader"), true)
 			// a violation in a later fragment must surface from Discard as well
 			readerDiscardRules(c, "C05")
+			readerReadRules(c, "C05")
 		},
 	})
 }
